@@ -7,7 +7,9 @@ import datetime
 import io
 import os.path
 import re
+import zlib
 
+from gemato.compression import InvalidCompressedFileExceptions
 from gemato.exceptions import (
     ManifestSyntaxError,
     ManifestUnsignedData,
@@ -346,6 +348,26 @@ class ManifestState:
     POST_SIGNED_DATA = 4
 
 
+def _text_lines(f):
+    """
+    Iterate over lines of text file @f (possibly decompressed
+    on the fly), reporting data that cannot be decompressed or decoded
+    as a Manifest syntax error.
+    """
+    try:
+        yield from f
+    except (InvalidCompressedFileExceptions
+            + (EOFError, UnicodeDecodeError, zlib.error)) as e:
+        raise ManifestSyntaxError(
+            f'Manifest is not valid (compressed) UTF-8 text: {e}')
+    except OSError as e:
+        # bz2 raises plain OSError without errno on bad data
+        if e.errno is not None:
+            raise
+        raise ManifestSyntaxError(
+            f'Manifest is not valid (compressed) UTF-8 text: {e}')
+
+
 class ManifestFile:
     """
     A class encapsulating a single Manifest file. It supports reading
@@ -389,7 +411,7 @@ class ManifestFile:
         state = ManifestState.DATA
         openpgp_data = ''
 
-        for line in f:
+        for line in _text_lines(f):
             if state == ManifestState.DATA:
                 if line == '-----BEGIN PGP SIGNED MESSAGE-----\n':
                     if self.entries:
